@@ -109,6 +109,9 @@ pub struct VFile {
     pub pipe: bool,
     /// unreadable: every read fails with EIO (a directory given as input, a failing medium)
     pub unreadable: bool,
+    /// removed from its directory while still open and still being written (rm, a rename over it, a temp file):
+    /// metadata reports a link count of 0, everything else goes on as before
+    pub unlinked: bool,
 }
 
 struct OpenFd {
@@ -201,7 +204,7 @@ impl World {
     }
 
     pub fn add_file(&mut self, path: &str, data: Vec<u8>) -> usize {
-        self.files.push(VFile { path: path.to_owned(), data, pipe: false, unreadable: false });
+        self.files.push(VFile { path: path.to_owned(), data, pipe: false, unreadable: false, unlinked: false });
         self.files.len() - 1
     }
 
@@ -822,6 +825,9 @@ fn virtual_mtime(data: &[u8]) -> i64 {
 
 unsafe fn fill_statx_file(buf: *mut libc::statx, f: &VFile, ino: u64) {
     fill_statx(buf, &f.data, ino);
+    if f.unlinked {
+        (*buf).stx_nlink = 0;
+    }
     if f.pipe {
         (*buf).stx_mode = (libc::S_IFIFO | 0o600) as u16;
         (*buf).stx_size = 0;
